@@ -225,7 +225,7 @@ func cmdCheck(args []string) int {
 				again = append(again, o)
 			}
 		}
-		if len(again) > 0 && len(again) <= 24 {
+		if len(again) > 0 && len(again) <= 8 {
 			solveAll(again, tmp, 4*timeout, 6, false)
 		} else {
 			for _, o := range again {
